@@ -59,15 +59,17 @@ def export_name(fn):
 
 
 def make_wav(path):
-    n = 200
+    n = 16000     # long enough to keep sounding over many frames
     data = bytes((i * 7) % 256 for i in range(n))
     hdr = b"RIFF" + struct.pack("<I", 36 + n) + b"WAVEfmt " + struct.pack("<IHHIIHH", 16, 1, 1, 8000, 8000, 1, 8) + b"data" + struct.pack("<I", n)
     open(path, "wb").write(hdr + data)
 
 
 def pick_modules(ck, n):
-    files = [f for f in vlib.corpus_files() if 2000 < os.path.getsize(f) < 300000]
-    fixed = [f for f in files if "/test/test." in f and not f.endswith(".itz")]
+    allf = vlib.corpus_files()
+    files = [f for f in allf if 2000 < os.path.getsize(f) < 300000]
+    # the repository's own small test modules are always in (test.xm: instruments != samples)
+    fixed = [f for f in allf if "/test/test." in f and f.endswith((".xm", ".it", ".s3m", ".mod")) and os.path.getsize(f) < 300000]
     rest = [f for f in files if f not in fixed and not any(f.endswith(x) for x in (".gz", ".bz2", ".xz", ".zip", ".lha", ".Z", ".itz"))]
     ck.rng.shuffle(rest)
     return fixed + rest[:n]
